@@ -4,6 +4,7 @@ CONSTANTS
   MaxDev = 1
   MaxFileMut = 1
   Sep = TRUE
+  FullExt = 1
   Wildcard = TRUE
 INVARIANT ReturnIffOk
 CHECK_DEADLOCK FALSE
